@@ -1,5 +1,7 @@
 import Seccomp.Proofs.Lemmas.Closed
 import Seccomp.Proofs.Lemmas.NoUseless
+import Seccomp.Proofs.Lemmas.Rename
+import Seccomp.Model.Lower
 /-!
 # C06 — the label/jump builder preserves jump targets at any distance
 
@@ -96,5 +98,39 @@ def distProg (d : Nat) : List (Tok Nat) :=
 
 theorem dist255_no_bridge : ((assemble (distProg 255)).toOption.map List.length) = some 258 := by decide +kernel
 theorem dist256_bridge : ((assemble (distProg 256)).toOption.map List.length) = some 260 := by decide +kernel
+
+/-! ## Label names are immaterial
+
+The Go builder numbers its labels (`NewLabel` counts up); the model of the policy compiler uses structured
+labels.  Both are the same program up to a renaming that keeps distinct labels distinct, and neither the
+resolver nor the label-level meaning can see such a renaming. -/
+
+/-- **The resolver cannot see label names**: the assembled instruction list (or the error) is the same for
+    every naming of the labels under which the labels the program mentions stay distinct. -/
+theorem label_names_irrelevant {M : Type} [DecidableEq M] (f : L → M) (p : List (Tok L))
+    (hf : InjOn f (mentioned p)) : assemble (renameToks f p) = assemble p :=
+  assemble_rename f p hf
+
+/-- … and neither can the label-level meaning, on any input. -/
+theorem label_meaning_names_irrelevant {M : Type} [DecidableEq M] (f : L → M) (p : List (Tok L))
+    (hf : InjOn f (mentioned p)) (w : Nat → Word) (a : Word) : runT w (renameToks f p) a = runT w p a :=
+  runT_rename w f (mentioned p) hf p.length p (Nat.le_refl _) (fun _ h => h) a
+
+/-- For the policy compiler: whatever integers `NewLabel` hands out for the labels of a group program — as long
+    as different labels get different integers — `Program.Assemble` yields the program the model computes from
+    its structured labels. -/
+theorem group_program_any_numbering (ly : Layout) (ents : List Entry) (r : Word) (num : PL → Nat)
+    (hnum : InjOn num (mentioned (groupToks ly ents r))) :
+    assemble (renameToks num (groupToks ly ents r)) = assemble (groupToks ly ents r) :=
+  assemble_rename num _ hnum
+
+/-- non-vacuity: a two-label program under a renaming that is injective on its labels only (`0, 1 ↦ 10, 11`,
+    everything else collapses), and one that identifies its two labels — which does change the result -/
+def renProg : List (Tok Nat) := [.ins (.jif .eq 1#32 0 1), .lab 1, .ins (.ret 5#32), .lab 0, .ins (.ret 7#32)]
+
+theorem rename_example :
+    (assemble (renameToks (fun l => if l ≤ 1 then l + 10 else 0) renProg)).toOption = (assemble renProg).toOption ∧
+    (assemble renProg).toOption = some [.jif .eq 1#32 1 0, .ret 5#32, .ret 7#32] ∧
+    (assemble (renameToks (fun _ => 3) renProg)).toOption ≠ (assemble renProg).toOption := by decide +kernel
 
 end C06
